@@ -648,515 +648,6 @@ func (r *runner) step(i int, op Op) bool {
 			}
 		}
 	case "pstyle":
-		o.I = []int{sel(), sel()}
-	case "st.create":
-		o.St = genSpec(t, false)
-	case "st.add":
-		o.St = genSpec(t, true)
-	case "st.quick":
-		o.St = genSpec(t, true)
-		o.B = []bool{bl(), bl()} // has paragraph config, has run config
-	case "st.mod":
-		o.I = []int{sel(), rapid.IntRange(0, 5).Draw(t, "field")}
-		o.S = []string{rapid.SampledFrom(styleName).Draw(t, "nn"), rapid.SampledFrom([]string{"", "Normal", "Title"}).Draw(t, "nb"),
-			rapid.SampledFrom(colorsHex[1:]).Draw(t, "nc"), rapid.SampledFrom(aligns[1:]).Draw(t, "na")}
-		o.B = []bool{bl()}
-	case "st.remove":
-		o.I = []int{sel()}
-		// half of the removals name a predefined style (executed only while nothing uses it and nothing is based on it)
-		if bl() {
-			if bl() {
-				o.S = []string{fmt.Sprintf("Heading%d", rapid.IntRange(1, 9).Draw(t, "rmh"))}
-			} else {
-				o.S = []string{rapid.SampledFrom(removable).Draw(t, "rmid")}
-			}
-		}
-	case "table":
-		o.I = []int{rapid.IntRange(1, 3).Draw(t, "rows"), rapid.IntRange(1, 3).Draw(t, "cols"), 0}
-	case "tblstyle":
-		o.I = []int{sel(), rapid.IntRange(0, 2).Draw(t, "mode"), sel()}
-		o.S = []string{rapid.SampledFrom(templates).Draw(t, "tpl")}
-		o.B = []bool{bl(), bl()}
-	case "tblcustom":
-		o.I = []int{sel()}
-		o.S = []string{rapid.SampledFrom([]string{"TblA", "TblB", "表格样式"}).Draw(t, "tid"), rapid.SampledFrom(styleName).Draw(t, "tname")}
-		o.B = []bool{bl(), bl(), bl()}
-	case "toc", "autotoc":
-		o.S = []string{word(t, "title")}
-		o.I = []int{rapid.IntRange(1, 9).Draw(t, "max")}
-		o.B = []bool{bl(), bl(), bl(), bl()}
-	case "updatetoc":
-	case "listitem":
-		o.S = []string{word(t, "text")}
-		o.I = []int{sel(), sel(), rapid.IntRange(0, 5).Draw(t, "start"), rapid.IntRange(0, 8).Draw(t, "lvl")}
-	case "bullet", "numbered":
-		o.S = []string{word(t, "text")}
-		o.I = []int{rapid.IntRange(0, 8).Draw(t, "lvl"), sel()}
-	case "footnote", "endnote":
-		o.S = []string{word(t, "text"), word(t, "note")}
-	case "header", "footer":
-		o.I = []int{sel()}
-		o.S = []string{word(t, "text")}
-	case "save":
-		o.B = []bool{rapid.IntRange(0, 3).Draw(t, "viafile") == 0}
-	case "reopen":
-		o.B = []bool{rapid.IntRange(0, 3).Draw(t, "viafile") == 0, bl()} // through a file, in a fresh process (registries reset)
-	case "md":
-		n := rapid.IntRange(1, 6).Draw(t, "mdn")
-		var b strings.Builder
-		for i := 0; i < n; i++ {
-			b.WriteString(rapid.SampledFrom(mdPieces).Draw(t, "mdp"))
-		}
-		o.S = []string{b.String()}
-		o.B = []bool{true, true, false, false, false, bl()}
-		o.I = []int{rapid.IntRange(1, 4).Draw(t, "toc")}
-	default:
-		panic("c13 gen: unknown kind " + k)
-	}
-	return o
-}
-
-// scenario tails: the multi-step shapes the property is about
-var tails = [][]string{
-	{"save", "st.add", "pstyle", "save"},
-	{"st.add", "pstyle", "save", "st.mod", "save"},
-	{"st.quick", "save", "reopen", "st.create", "pstyle"},
-	{"listitem", "numbered", "bullet", "reopen", "listitem"},
-	{"footnote", "footnote", "endnote", "reopen", "footnote"},
-	{"heading", "heading", "autotoc", "save", "heading", "updatetoc"},
-	{"heading", "toc", "reopen", "heading", "toc"},
-	{"table", "tblstyle", "save", "tblcustom"},
-	{"st.add", "save", "st.remove", "st.add", "save"},
-	{"md", "st.add", "pstyle", "save", "heading"},
-	{"heading", "listitem", "footnote", "save", "reopen", "heading", "listitem", "endnote"},
-}
-
-func genStart(t *rapid.T) *Start {
-	s := &Start{Scheme: rapid.SampledFrom([]string{"none", "zh", "wps"}).Draw(t, "scheme"), Strip: rapid.Bool().Draw(t, "strip"),
-		Custom: rapid.Bool().Draw(t, "custom"), Quote: rapid.Bool().Draw(t, "quote"),
-		Lists: rapid.IntRange(0, 4).Draw(t, "lists"), Footnotes: rapid.IntRange(0, 3).Draw(t, "fn"), Endnotes: rapid.IntRange(0, 3).Draw(t, "en")}
-	n := rapid.IntRange(0, 4).Draw(t, "nh")
-	for i := 0; i < n; i++ {
-		s.Headings = append(s.Headings, rapid.IntRange(1, 9).Draw(t, "hl"))
-	}
-	return s
-}
-
-func genCase(t *rapid.T) Case {
-	var c Case
-	if rapid.IntRange(0, 3).Draw(t, "hasstart") == 0 {
-		c.Start = genStart(t)
-	}
-	n := rapid.IntRange(1, kit.Scale(18, 40)).Draw(t, "nops")
-	for i := 0; i < n; i++ {
-		c.Ops = append(c.Ops, genOpOf(t, rapid.SampledFrom(kindPool).Draw(t, "kind")))
-	}
-	switch rapid.IntRange(0, 5).Draw(t, "tail") {
-	case 0, 1:
-		for _, k := range rapid.SampledFrom(tails).Draw(t, "tailsel") {
-			c.Ops = append(c.Ops, genOpOf(t, k))
-		}
-	case 2:
-		// a predefined style is removed while unused, then the helper that normally refers to it is called
-		n := rapid.IntRange(1, 9).Draw(t, "rmlevel")
-		rm := genOpOf(t, "st.remove")
-		hd := genOpOf(t, "heading")
-		hd.I = []int{n}
-		if rapid.Bool().Draw(t, "rmtoc") {
-			rm.S = []string{tocIDs[n]}
-			c.Ops = append(c.Ops, rm, hd, genOpOf(t, rapid.SampledFrom([]string{"toc", "autotoc"}).Draw(t, "tock")))
-		} else {
-			rm.S = []string{fmt.Sprintf("Heading%d", n)}
-			c.Ops = append(c.Ops, rm, hd)
-			if rapid.Bool().Draw(t, "rmsave") {
-				c.Ops = append(c.Ops, genOpOf(t, "save"), genOpOf(t, "heading"))
-			}
-		}
-	}
-	return c
-}
-
-// ---------------------------------------------------------------------------------------------
-// interpreter
-
-type runner struct {
-	res *kit.Result
-	x   *ops.Exec
-	m   *model
-	dir string
-}
-
-var libTypes = map[string]style.StyleType{"paragraph": style.StyleTypeParagraph, "character": style.StyleTypeCharacter, "table": style.StyleTypeTable}
-
-// normalise makes a style argument one a careful caller could pass at this moment:
-// an id that is already registered keeps its type (paragraphs/tables may refer to it), a predefined id that
-// is re-defined keeps a base that cannot close a based-on cycle, custom bases only point "backwards".
-func (r *runner) normalise(s *StyleSpec) *StyleSpec {
-	c := *s
-	if t, ok := r.m.reg[c.ID]; ok {
-		c.Type = t
-	} else if t, ok := builtinTypes[c.ID]; ok {
-		c.Type = t
-	}
-	if _, predefined := builtinTypes[c.ID]; predefined {
-		if c.ID == "Normal" {
-			c.BasedOn = ""
-		} else {
-			c.BasedOn = "Normal"
-		}
-	} else if idx := indexOf(freshIDs, c.BasedOn); idx >= 0 && idx >= indexOf(freshIDs, c.ID) {
-		c.BasedOn = "Normal"
-	}
-	if c.Type != "paragraph" {
-		c.Align, c.Before, c.After = "", 0, 0
-	}
-	return &c
-}
-
-func indexOf(l []string, s string) int {
-	for i, x := range l {
-		if x == s {
-			return i
-		}
-	}
-	return -1
-}
-
-// judge evaluates X1-X4 on one saved package.
-func (r *runner) judge(b []byte, where string) *obs {
-	res, m := r.res, r.m
-	o, err := observe(b)
-	if err != nil {
-		// not a readable package / main part: C01's clause, nothing to resolve here
-		res.Count("unreadable_package", 1)
-		return nil
-	}
-	m.saves++
-	if m.saves >= 2 && m.sinceSave {
-		m.styleBetweenSaves = true
-	}
-	m.sinceSave = false
-	for _, cl := range []string{"C13.X1", "C13.X2", "C13.X3", "C13.X4"} {
-		res.Eval(cl)
-	}
-	res.Count("style_refs_checked", len(o.Refs))
-	res.Count("num_refs_checked", len(o.NumRefs))
-	res.Count("note_refs_checked", len(o.FnRefs)+len(o.EnRefs))
-	res.Count("api_styles_checked", len(m.want))
-	for _, v := range checkRefs(o) {
-		var flags []string
-		switch v.Kind {
-		case "pStyle", "rStyle", "tblStyle":
-			if m.late[v.ID] {
-				flags = append(flags, "late-style")
-			}
-			if m.preStyles != nil && !m.preStyles[v.ID] {
-				flags = append(flags, "opened-without")
-			}
-			if m.removed[v.ID] {
-				flags = append(flags, "removed")
-			}
-		case "numId":
-			if m.preNum[v.ID] {
-				flags = append(flags, "pre-open")
-			}
-		case "footnote":
-			if m.preFn[v.ID] {
-				flags = append(flags, "pre-open")
-			}
-		case "endnote":
-			if m.preEn[v.ID] {
-				flags = append(flags, "pre-open")
-			}
-		}
-		res.Fail(v.Clause, "%s: %s [kind=%s id=%q flags=%s]", where, v.Text, v.Kind, v.ID, strings.Join(flags, ","))
-	}
-	for _, v := range checkStyles(o, m.want) {
-		fl := ""
-		if m.late[v.ID] {
-			fl = "late-style"
-		}
-		res.Fail(v.Clause, "%s: %s [kind=style id=%q flags=%s]", where, v.Text, v.ID, fl)
-	}
-	return o
-}
-
-func (r *runner) save(viaFile bool, where string) ([]byte, *obs, bool) {
-	var b []byte
-	var err error
-	p, st := kit.Try(func() {
-		if viaFile {
-			path := filepath.Join(r.dir, "save.docx")
-			if err = r.x.Doc.Save(path); err == nil {
-				b, err = os.ReadFile(path)
-			}
-		} else {
-			b, err = r.x.Doc.ToBytes()
-		}
-	})
-	if p != nil {
-		r.res.Fail("C13.X0", "%s panicked: %v [%s]", where, p, st)
-		return nil, nil, false
-	}
-	if err != nil {
-		r.res.Count("save_errors", 1)
-		return nil, nil, true
-	}
-	r.m.saved = true
-	return b, r.judge(b, where), true
-}
-
-func (r *runner) refresh() {
-	r.x.Paras, r.x.Tables, r.x.Images = nil, nil, nil
-	if r.x.Doc != nil && r.x.Doc.Body != nil {
-		r.x.Paras = r.x.Doc.Body.GetParagraphs()
-		r.x.Tables = r.x.Doc.Body.GetTables()
-	}
-}
-
-// open replaces the document by one opened from b (fresh = in a new process: registries reset first).
-func (r *runner) open(b []byte, o *obs, viaFile, fresh bool, where string) bool {
-	if fresh {
-		document.VerifResetGlobals()
-	}
-	var nd *document.Document
-	var err error
-	p, st := kit.Try(func() {
-		if viaFile {
-			path := filepath.Join(r.dir, "open.docx")
-			if err = os.WriteFile(path, b, 0o644); err == nil {
-				nd, err = document.Open(path)
-			}
-		} else {
-			nd, err = document.OpenFromMemory(io.NopCloser(bytes.NewReader(b)))
-		}
-	})
-	if p != nil {
-		r.res.Fail("C13.X0", "%s: opening panicked: %v [%s]", where, p, st)
-		return false
-	}
-	if err != nil || nd == nil || nd.Body == nil {
-		// the library cannot open the package: C03/C06's clause; the history ends here
-		r.res.Count("open_errors", 1)
-		return false
-	}
-	r.x.Doc = nd
-	r.refresh()
-	r.m.openedFrom(o, fresh)
-	return true
-}
-
-func isListOp(k string) bool { return k == "listitem" || k == "bullet" || k == "numbered" }
-func isNoteOp(k string) bool { return k == "footnote" || k == "endnote" }
-func isStyleOp(k string) bool { return strings.HasPrefix(k, "st.") }
-func isTOCOp(k string) bool  { return k == "toc" || k == "autotoc" || k == "updatetoc" }
-
-// step executes one op; false = the history cannot continue.
-func (r *runner) step(i int, op Op) bool {
-	m, x, res := r.m, r.x, r.res
-	where := fmt.Sprintf("op %d %s", i, op.K)
-	sm := x.Doc.GetStyleManager()
-	try := func(f func()) bool {
-		if p, st := kit.Try(f); p != nil {
-			res.Fail("C13.X0", "%s panicked: %v [%s]", where, p, st)
-			return false
-		}
-		return true
-	}
-	switch op.K {
-	case "save":
-		_, _, ok := r.save(len(op.B) > 0 && op.B[0], where)
-		return ok
-	case "reopen":
-		b, o, ok := r.save(false, where+" (the save before reopening)")
-		if !ok || b == nil {
-			return ok
-		}
-		fresh := len(op.B) > 1 && op.B[1]
-		if fresh {
-			res.Label("reopen:fresh-process")
-		} else {
-			res.Label("reopen:same-process")
-		}
-		return r.open(b, o, len(op.B) > 0 && op.B[0], fresh, where)
-	case "st.create", "st.add", "st.quick":
-		if sm == nil || op.St == nil {
-			return true
-		}
-		s := r.normalise(op.St)
-		switch op.K {
-		case "st.create":
-			if !try(func() { sm.CreateCustomStyle(s.ID, s.Name, libTypes[s.Type], s.BasedOn) }) {
-				return false
-			}
-			m.want[s.ID] = fullWant(s, false, false)
-		case "st.add":
-			if !try(func() { sm.AddStyle(libStyle(s)) }) {
-				return false
-			}
-			m.want[s.ID] = fullWant(s, true, s.Type == "paragraph")
-		case "st.quick":
-			hasPara := len(op.B) > 0 && op.B[0] && s.Type == "paragraph"
-			hasRun := len(op.B) > 1 && op.B[1]
-			cfg := style.QuickStyleConfig{ID: s.ID, Name: s.Name, Type: libTypes[s.Type], BasedOn: s.BasedOn}
-			if hasPara {
-				cfg.ParagraphConfig = &style.QuickParagraphConfig{Alignment: s.Align, SpaceBefore: s.Before, SpaceAfter: s.After}
-			}
-			if hasRun {
-				cfg.RunConfig = &style.QuickRunConfig{FontName: s.Font, FontSize: s.SizePt, FontColor: s.Color, Bold: s.Bold, Italic: s.Italic}
-			}
-			_, known := m.reg[s.ID]
-			var err error
-			if !try(func() { _, err = style.NewQuickStyleAPI(sm).CreateQuickStyle(cfg) }) {
-				return false
-			}
-			if err != nil {
-				// documented: an id that already exists is rejected; nothing was created or changed
-				res.Label("quick:rejected")
-				return true
-			}
-			if known {
-				// the caller's view (styles of the opened package) and the library's registry disagree;
-				// the style now exists in the registry, the expectation below applies all the same
-				res.Label("quick:accepted-known-id")
-			}
-			m.want[s.ID] = fullWant(s, hasRun, hasPara)
-		}
-		m.reg[s.ID] = s.Type
-		if s.BasedOn != "" {
-			m.base[s.ID] = s.BasedOn
-		} else {
-			delete(m.base, s.ID)
-		}
-		r.styleLabel()
-		m.touched(s.ID)
-		res.Label("op:" + op.K)
-	case "st.mod":
-		if sm == nil {
-			return true
-		}
-		// candidates: the styles this history set through the API, and a few predefined ones
-		cand := []string{}
-		for id := range m.want {
-			cand = append(cand, id)
-		}
-		for _, id := range []string{"Heading1", "Heading3", "Quote", "Title"} {
-			if _, ok := m.want[id]; !ok {
-				if _, ok := m.reg[id]; ok {
-					cand = append(cand, id)
-				}
-			}
-		}
-		sortStrings(cand)
-		if len(cand) == 0 {
-			return true
-		}
-		id := cand[ops.In(op.I[0], len(cand))]
-		var st *style.Style
-		if !try(func() { st = sm.GetStyle(id) }) {
-			return false
-		}
-		if st == nil {
-			res.Count("mod_skipped_not_registered", 1)
-			return true
-		}
-		w := m.want[id]
-		if w == nil {
-			w = map[string]string{}
-			m.want[id] = w
-		}
-		switch op.I[1] {
-		case 0:
-			st.Name = &style.StyleName{Val: op.S[0]}
-			w["name"] = op.S[0]
-		case 1:
-			if id == "Normal" || m.reg[id] != "paragraph" {
-				st.Name = &style.StyleName{Val: op.S[0]}
-				w["name"] = op.S[0]
-			} else if op.S[1] == "" || op.S[1] == id {
-				st.BasedOn = nil
-				w["basedOn"] = absent
-			} else {
-				st.BasedOn = &style.BasedOn{Val: op.S[1]}
-				w["basedOn"] = op.S[1]
-			}
-		case 2:
-			if st.RunPr == nil {
-				st.RunPr = &style.RunProperties{}
-			}
-			if op.B[0] {
-				st.RunPr.Bold = &style.Bold{}
-			} else {
-				st.RunPr.Bold = nil
-			}
-			w["b"] = flag(op.B[0])
-		case 3:
-			if st.RunPr == nil {
-				st.RunPr = &style.RunProperties{}
-			}
-			st.RunPr.Color = &style.Color{Val: op.S[2]}
-			w["color"] = op.S[2]
-		case 4:
-			if st.RunPr == nil {
-				st.RunPr = &style.RunProperties{}
-			}
-			st.RunPr.FontSize = &style.FontSize{Val: "36"}
-			w["sz"] = "36"
-		case 5:
-			if m.reg[id] == "paragraph" {
-				if st.ParagraphPr == nil {
-					st.ParagraphPr = &style.ParagraphProperties{}
-				}
-				st.ParagraphPr.Justification = &style.Justification{Val: op.S[3]}
-				w["jc"] = op.S[3]
-			} else {
-				st.Name = &style.StyleName{Val: op.S[0]}
-				w["name"] = op.S[0]
-			}
-		}
-		if b, ok := w["basedOn"]; ok {
-			if b == absent {
-				delete(m.base, id)
-			} else {
-				m.base[id] = b
-			}
-		}
-		r.styleLabel()
-		m.touched(id)
-		res.Label("op:st.mod")
-	case "st.remove":
-		if sm == nil {
-			return true
-		}
-		// only styles this history created, not given to any paragraph/table, not the base of another one it created
-		var cand []string
-		for id := range m.want {
-			if _, predefined := builtinTypes[id]; predefined || m.used[id] {
-				continue
-			}
-			based := false
-			for other, w := range m.want {
-				if other != id && w["basedOn"] == id {
-					based = true
-				}
-			}
-			if !based {
-				cand = append(cand, id)
-			}
-		}
-		sortStrings(cand)
-		if len(cand) == 0 {
-			return true
-		}
-		id := cand[ops.In(op.I[0], len(cand))]
-		if !try(func() { sm.RemoveStyle(id) }) {
-			return false
-		}
-		delete(m.want, id)
-		delete(m.reg, id)
-		m.sinceSave = true
-		res.Label("op:st.remove")
-	case "pstyle":
 		if sm == nil || len(x.Paras) == 0 {
 			return true
 		}
